@@ -29,3 +29,8 @@ claim("C08", "other", "loop-variant discipline on Store.size (natural loops, abs
       "Decides termination of the backward root scan structurally: every cursor-moving loop decrements on every cycle, re-tests the floor on every cycle, leaves the loop on the floor outcome (interprocedurally, by re-exploring the caller with the callee's abstract result tuple) and keeps no non-decrement cursor write inside the loop; plus memory-only rejection first, Truncate only behind !readOnly and a successful scan with the scanned size, collections dropped and cursor stepped back before the scan. A strictly decreasing, bounded integer variant is a termination proof of the scan given terminating file reads; that the state reached equals the previous Flush exactly is not decided.",
       "Trusted: go/ssa natural-loop structure; file reads return (errors exit the loops: C07 E1).",
       "DESIGN.md §4 C08")
+
+claim("C05", "other", "lock-region dataflow (must/may held, interprocedural), lock-order graph, pin pairing, copy-on-write freshness, induction-order check of Flush",
+      "Decides the synchronisation skeleton every schedule relies on (L1 lock-protects-field with callers included, L2 acyclic lock order / no re-acquisition / unlock on every path, L3 no lock across user callbacks or file I/O, P1 pin pairing with the two-release rule after a successful publish, RC1 chain threshold = collection's reference + caller pins, W1 copy-on-write freshness of every structural write, A1 atomics on Store.size, FL1 sorted-name pin order before any write, N1 nil checks). These are necessary conditions for 'readers see one consistent version, no panic, no deadlock, flusher captures versions in name order'; they are checked for all paths and call sites, not for sampled schedules. Not decided: linearizability of reads, absence of lost updates, refcount arithmetic over histories.",
+      "Trusted: go/ssa; lock identity by field/variable (not instance); single mutator + single flusher as the property states.",
+      "DESIGN.md §4 C05")
